@@ -23,14 +23,15 @@ import (
 )
 
 // ---- a sender that never finds a block ----
-type c02NullSender struct{}
+type c02NullSender struct{ fetchable map[hotstuff.Hash]*hotstuff.Block }
 
 func (c02NullSender) NewView(hotstuff.ID, hotstuff.SyncInfo) error { return nil }
 func (c02NullSender) Vote(hotstuff.ID, hotstuff.PartialCert) error  { return nil }
 func (c02NullSender) Timeout(hotstuff.TimeoutMsg)                   {}
 func (c02NullSender) Propose(*hotstuff.ProposeMsg)                  {}
-func (c02NullSender) RequestBlock(context.Context, hotstuff.Hash) (*hotstuff.Block, bool) {
-	return nil, false
+func (s c02NullSender) RequestBlock(_ context.Context, h hotstuff.Hash) (*hotstuff.Block, bool) {
+	b, ok := s.fetchable[h] // blocks that are not stored locally but that a peer serves
+	return b, ok
 }
 func (s c02NullSender) Sub([]hotstuff.ID) (core.Sender, error) { return s, nil }
 
@@ -115,6 +116,12 @@ type c02World struct {
 	g2       *bls12.G2
 	garbageN int
 	pick     int
+	keys     []hotstuff.PrivateKey
+	ids      []uint64 // actual replica id of logical replica k = ids[k-1]; ids[n] is the outsider
+	grow     *c02Grow // membership-growth mode: one long-lived Authority per cache setting
+	long     []*Authority // long-lived cache-less Authority per verifier (must behave statelessly)
+	cacheCap uint
+	sparse   bool // non-contiguous / large ids: no exhaustive enumeration, fewer random cases
 	repeat   bool // repetitions of one aggregate: first verifier only, no sub-streams
 }
 
@@ -155,10 +162,40 @@ func c02SchemeTerm(scheme string) string {
 	return "Bls12"
 }
 
-func c02NewWorld(v *verifOut, scheme string, n int) *c02World {
+// id maps a logical replica number (1..n members, n+1 the outsider, anything else an unknown id)
+// to the replica id used on the Go side and in the emitted terms.
+func (w *c02World) id(k uint64) uint64 {
+	if k >= 1 && int(k) <= len(w.ids) {
+		return w.ids[k-1]
+	}
+	return 70000 + k
+}
+
+func (w *c02World) isMember(actual uint64) bool {
+	for k := 0; k < w.n; k++ {
+		if w.ids[k] == actual {
+			return true
+		}
+	}
+	return false
+}
+
+type c02Grow struct{ auths map[bool]*Authority }
+
+func c02NewWorld(v *verifOut, scheme string, n int) *c02World { return c02NewWorldIDs(v, scheme, n, nil) }
+
+func c02NewWorldIDs(v *verifOut, scheme string, n int, ids []uint64) *c02World {
 	w := &c02World{v: v, scheme: scheme, sch: c02SchemeTerm(scheme), n: n, q: hotstuff.QuorumSize(n),
 		hashIdx: map[hotstuff.Hash]uint64{}, blocks: map[string]*hotstuff.Block{}, stored: map[uint64]uint64{},
 		digests: map[string]uint64{}, signMemo: map[string][]byte{}, sigTable: map[string]c02Contrib{}, g2: bls12.NewG2()}
+	if ids == nil {
+		ids = c02Range(1, n+1)
+	}
+	w.ids = ids
+	w.cacheCap = 16
+	if n%2 == 1 {
+		w.cacheCap = 1
+	}
 	keys := make([]hotstuff.PrivateKey, n+1)
 	for i := 0; i <= n; i++ {
 		k, err := c02Key(scheme)
@@ -166,18 +203,20 @@ func c02NewWorld(v *verifOut, scheme string, n int) *c02World {
 			panic(err)
 		}
 		keys[i] = k
-		cfg := core.NewRuntimeConfig(hotstuff.ID(i+1), k)
+		w.keys = append(w.keys, k)
+		cfg := core.NewRuntimeConfig(hotstuff.ID(w.ids[i]), k)
 		b, err := crypto.New(cfg, scheme)
 		if err != nil {
 			panic(err)
 		}
 		w.bases = append(w.bases, b)
 		if i < n {
-			w.infos = append(w.infos, hotstuff.ReplicaInfo{ID: hotstuff.ID(i + 1), PubKey: k.Public(), Metadata: cfg.ConnectionMetadata()})
+			w.infos = append(w.infos, hotstuff.ReplicaInfo{ID: hotstuff.ID(w.ids[i]), PubKey: k.Public(), Metadata: cfg.ConnectionMetadata()})
 		}
 	}
 	logger := logging.NewWithDest(io.Discard, "c02")
-	w.chain = blockchain.New(eventloop.New(logger, 16), logger, c02NullSender{})
+	fetchable := map[hotstuff.Hash]*hotstuff.Block{}
+	w.chain = blockchain.New(eventloop.New(logger, 16), logger, c02NullSender{fetchable})
 	verIDs := []int{1}
 	if n > 1 {
 		verIDs = append(verIDs, n)
@@ -191,12 +230,12 @@ func c02NewWorld(v *verifOut, scheme string, n int) *c02World {
 		for _, vr := range variants {
 			var opts []core.RuntimeOption
 			if vr[0] == '1' {
-				opts = append(opts, core.WithCache(16))
+				opts = append(opts, core.WithCache(w.cacheCap))
 			}
 			if vr[1] == '1' {
 				opts = append(opts, core.WithAggregateQC())
 			}
-			cfg := core.NewRuntimeConfig(hotstuff.ID(id), keys[id-1], opts...)
+			cfg := core.NewRuntimeConfig(hotstuff.ID(w.ids[id-1]), keys[id-1], opts...)
 			b, err := crypto.New(cfg, scheme)
 			if err != nil {
 				panic(err)
@@ -233,6 +272,9 @@ func c02NewWorld(v *verifOut, scheme string, n int) *c02World {
 	add("BM", 3, false)              // never stored: "block not found"
 	add("BH", (1<<63)+5, true)       // extreme view label
 	add("B2b", 2, true)              // a second block of view 2
+	add("BF", 7, false)              // not stored locally; blockchain.Get fetches it from a peer
+	fetchable[w.blocks["BF"].Hash()] = w.blocks["BF"]
+	w.stored[w.hashIdx[w.blocks["BF"].Hash()]] = 7
 	var st []string
 	idxs := make([]uint64, 0, len(w.stored))
 	for h := range w.stored {
@@ -243,19 +285,21 @@ func c02NewWorld(v *verifOut, scheme string, n int) *c02World {
 		st = append(st, fmt.Sprintf("(%d,(%d,%d))", h, h, w.stored[h]))
 	}
 	w.storeTm = "[" + strings.Join(st, ";") + "]"
+	for vi := range w.vers {
+		w.long = append(w.long, NewAuthority(w.vers[vi].cfgs["00"], w.chain, w.vers[vi].bases["00"]))
+	}
 	return w
 }
 
 func (w *c02World) cfgTerm(agg bool) string {
-	ids := make([]string, w.n)
-	for i := range ids {
-		ids[i] = fmt.Sprint(i + 1)
-	}
-	return fmt.Sprintf("(mkCfg %s [%s] 1 %s)", w.sch, strings.Join(ids, ";"), gBool(agg))
+	return fmt.Sprintf("(mkCfg %s %s 1 %s)", w.sch, w.membersTerm(), gBool(agg))
 }
 
 // auth returns a fresh Authority (fresh cache when enabled) for verifier vi.
 func (w *c02World) auth(vi int, cache, agg bool) *Authority {
+	if w.grow != nil {
+		return w.grow.auths[cache]
+	}
 	key := "00"
 	if cache && agg {
 		key = "11"
@@ -276,7 +320,12 @@ func (w *c02World) mBlock(name string) c02Msg {
 func (w *c02World) mView(v uint64) c02Msg {
 	return c02Msg{kind: 'V', view: v, bytes: hotstuff.View(v).ToBytes()}
 }
-func (w *c02World) mTimeout(id, v uint64, qc *c02QC) c02Msg {
+func (w *c02World) mTimeout(logical, v uint64, qc *c02QC) c02Msg {
+	return w.mTimeoutA(w.id(logical), v, qc)
+}
+
+// mTimeoutA takes the replica id itself
+func (w *c02World) mTimeoutA(id, v uint64, qc *c02QC) c02Msg {
 	t := hotstuff.TimeoutMsg{ID: hotstuff.ID(id), View: hotstuff.View(v), SyncInfo: hotstuff.NewSyncInfo()}
 	m := c02Msg{kind: 'T', id: id, view: v, dig: -1}
 	if qc != nil {
@@ -307,7 +356,7 @@ func (w *c02World) rawSign(i uint64, m c02Msg) []byte {
 		raw = sig.ToBytes()
 	}
 	w.signMemo[k] = raw
-	w.sigTable[string(raw)] = c02Contrib{i, m}
+	w.sigTable[string(raw)] = c02Contrib{w.id(i), m}
 	return raw
 }
 
@@ -354,7 +403,7 @@ func (w *c02World) render(sp c02Spec) c02Sig {
 			default:
 				raw = w.rawSign(p.signer, p.msg)
 			}
-			els = append(els, el{p.label, raw})
+			els = append(els, el{w.id(p.label), raw})
 		}
 		var obj hotstuff.QuorumSignature
 		if mk == crypto.NameECDSA {
@@ -398,11 +447,25 @@ func (w *c02World) render(sp c02Spec) c02Sig {
 			src = append(src, p.label)
 		}
 	}
-	for _, l := range src {
+	for _, lg := range src {
+		l := w.id(lg)
 		if !labels[l] {
 			labels[l] = true
-			bf.Add(hotstuff.ID(l))
+			if o := c02Run(func() error { bf.Add(hotstuff.ID(l)); return nil }); o == "panic" {
+				w.oracle(false, "bitfield:add-panics", fmt.Sprintf("Bitfield.Add(%d) panics", l), map[string]any{"id": l, "members": w.membersTerm()})
+			}
 		}
+	}
+	// the participant set of the object must be the set that was put in (ids are not truncated or merged)
+	{
+		var got []uint64
+		bf.ForEach(func(id hotstuff.ID) { got = append(got, uint64(id)) })
+		same := len(got) == len(labels) && bf.Len() == len(labels)
+		for _, g := range got {
+			same = same && labels[g]
+		}
+		w.oracle(same, "bitfield:participants-differ", "a Bitfield built from a set of ids reports other participants",
+			map[string]any{"added": fmt.Sprint(src), "mapped_ids": fmt.Sprint(labels), "reported": fmt.Sprint(got), "len": bf.Len()})
 	}
 	acc := w.g2.Zero()
 	garbage := false
@@ -416,7 +479,7 @@ func (w *c02World) render(sp c02Spec) c02Sig {
 			pt, err = w.g2.HashToCurve(w.garbage(32), []byte("C02-GARBAGE"))
 		} else {
 			pt, err = w.g2.FromCompressed(w.rawSign(p.signer, p.msg))
-			contribs = append(contribs, c02Contrib{p.signer, p.msg})
+			contribs = append(contribs, c02Contrib{w.id(p.signer), p.msg})
 		}
 		if err != nil {
 			panic(err)
@@ -567,7 +630,7 @@ func (w *c02World) qcTruth(q *c02QC) (bool, string) {
 	}
 	signers := map[uint64]bool{}
 	for _, c := range q.sig.contribs {
-		if c.msg.kind == 'B' && c.msg.hash == q.hash && c.signer >= 1 && c.signer <= uint64(w.n) {
+		if c.msg.kind == 'B' && c.msg.hash == q.hash && w.isMember(c.signer) {
 			signers[c.signer] = true
 		}
 	}
